@@ -60,13 +60,32 @@ fn wellformed(ch: &mut Choices, case: &mut Case) -> Result<(), String> {
             let c: Vec<String> = i.comments.iter().map(|x| x.to_string()).collect();
             well_formed(&c, &allowed).map_err(|m| format!("`{}`: iter_range({from}, {to}) interval {:?}: {m}", g.text, i.range))?;
         }
-        if let Some(first) = intervals.first() {
+        // under an interval-size bound an interval may be cut short or stretched to the end of the window, but its
+        // comments are still those of the period it starts in (S-C17-i drops them when it approximates)
+        let bounded_first = if ch.chance(35) {
+            let bound = Duration::minutes(ch.pick(&[1440i64, 2 * 1440, 7 * 1440, 30 * 1440, 366 * 1440, 3 * 366 * 1440]) + ch.int(0, 1440));
+            let bounded = g.oh.clone().with_context(
+                opening_hours::Context::default().with_holidays(g.holidays.holidays.clone()).approx_bound_interval_size(bound),
+            );
+            case.label("first_interval_under_an_interval_size_bound");
+            let far = from + Duration::days(ch.pick(&[40i64, 400, 4000]));
+            crate::props::c03::capped(Some(60_000), || bounded.iter_range(from, far).next())
+                .map_err(|p| format!("`{}` with an interval-size bound: iter_range({from}, {far}) panicked: {p}", g.text))
+                .map(|c| match c {
+                    crate::props::c03::Capped::Done(x) => x,
+                    crate::props::c03::Capped::TooFar => None,
+                })?
+        } else {
+            None
+        };
+        for (what, first) in [("", intervals.first()), (" under an interval-size bound", bounded_first.as_ref())] {
+            let Some(first) = first else { continue };
             let minute = (from.hour() * 60 + from.minute()) as u16;
             if let Some(period) = day.iter().find(|r| r.0 <= minute && minute < r.1) {
                 let c: Vec<String> = first.comments.iter().map(|x| x.to_string()).collect();
                 if c != period.3 {
                     return Err(format!(
-                        "`{}`: iter_range({from}, ..) reports comments {c:?} for its first interval, but the schedule period containing the start instant ({}..{} min of {d}) has {:?}",
+                        "`{}`: iter_range({from}, ..){what} reports comments {c:?} for its first interval, but the schedule period containing the start instant ({}..{} min of {d}) has {:?}",
                         g.text, period.0, period.1, period.3
                     ));
                 }
